@@ -34,6 +34,13 @@ func fnKey(fn *ssa.Function) string {
 // dispatchSpecial handles replacements, intrinsics and no-op packages.
 func (m *Machine) dispatchSpecial(th *Thread, fn *ssa.Function, args []Value, site ssa.Instruction) (Value, bool) {
 	key := fnKey(fn)
+	if key == "(*time.Timer).Stop" && len(args) == 1 {
+		if p, isPtr := args[0].(*Ptr); isPtr {
+			if v, handled := m.timerStop(p); handled {
+				return v, true
+			}
+		}
+	}
 	if r, ok := m.P.Repl[key]; ok {
 		if r == nil {
 			// no-op replacement: zero results
